@@ -98,7 +98,7 @@ func opensslVerifyData(dir string, blob, content []byte) (bool, string) {
 func runC05(c *Ctx) {
 	rng := c.Rng
 	n := c.N(120, 1500)
-	maxContent := c.N(1500, 6000)
+	maxContent := c.Bound(1500, 6000)
 	for i := 0; i < n; i++ {
 		bits := 2048
 		if i%40 == 7 {
@@ -142,7 +142,7 @@ func runC05(c *Ctx) {
 			content = randBytes(rng, rng.Intn(200))
 		}
 		if i == 5 {
-			content = randBytes(rng, c.N(16384, 65536))
+			content = randBytes(rng, c.Bound(16384, 65536))
 		}
 		class := fmt.Sprintf("%s/rsa%d/serial%dB", oidClass, bits, len(cert.SerialNumber.Bytes()))
 		rec := &recSigner{key: key}
